@@ -194,8 +194,10 @@ Proof. exact rename_refused. Qed.
 Print Assumptions C03_rename_refused.
 
 (* from_dict: the item about to be added collides below its parent -> the item, and with it the whole
-   call ([from_dict_items] / [op_from_dict] propagate the first error), is refused; load is not part
-   of this model *)
+   call ([from_dict_items] / [op_from_dict] propagate the first error), is refused.  (These two are lemmas
+   about INTERNAL states of the call; the statements about the operation itself, duplicates at any depth, are
+   C03_from_dict_duplicate_refused_anywhere / C03_from_dict_ok_dup_free at the end of this file.  Tree.load is the
+   operation OLoad of Mut/MachineLoad.v, see the load section below.) *)
 Theorem C03_from_dict_item_refused : forall w ti p d e ch t id,
   WFw w -> get_tree w ti = Some t ->
   (match e with Some x => Some x | None => calc_id (calc t) d end) = Some id ->
@@ -358,3 +360,133 @@ Print Assumptions C03_reachable_chk.
 Theorem C03_step_chk_unique_is_step : forall w o w', step_chk w o = (Err EUnique, w') -> step w o = (Err EUnique, w').
 Proof. intros w o w' H. destruct (step_chk_err w o EUnique w' H) as [X|(_ & X & _)]; [exact X|discriminate]. Qed.
 Print Assumptions C03_step_chk_unique_is_step.
+
+(* ====================================================================================== *)
+(* Audit C03 (high): the from_dict route as a theorem about the OPERATION, duplicates at ANY depth.
+   [dup_free cs items]: no two sibling items at any depth resolve to one data_id; [ids_def]: every item's id is
+   computable (explicit, or the callback answers).  A model that swallows a nested / later / op-level error
+   (audit T2.v: fdi_bad, op_from_dict_bad) violates C03_from_dict_ok_dup_free on [DI 5 [DI 7; DI 7]]. *)
+From NT Require Import FromDictDup.
+
+Theorem C03_from_dict_ok_dup_free : forall w ti p items r w', WFw w -> step w (OFromDict ti p items) = (Ok r, w') ->
+  exists t, get_tree w ti = Some t /\ dup_free (calc t) items.
+Proof. exact from_dict_ok_dup_free. Qed.
+Print Assumptions C03_from_dict_ok_dup_free.
+
+Theorem C03_from_dict_error_class : forall w ti p items x w' t, WFw w -> get_tree w ti = Some t ->
+  children_of p (forest_of t) = Some [] -> step w (OFromDict ti p items) = (Err x, w') ->
+  (x = EUnique \/ (x = ECrash /\ forallb (ids_def (calc t)) items = false)) /\ trees w' = trees w.
+Proof. exact from_dict_error_class. Qed.
+Print Assumptions C03_from_dict_error_class.
+
+Theorem C03_from_dict_duplicate_refused_anywhere : forall w ti p items t, WFw w -> get_tree w ti = Some t ->
+  children_of p (forest_of t) = Some [] -> forallb (ids_def (calc t)) items = true -> ~ dup_free (calc t) items ->
+  fst (step w (OFromDict ti p items)) = Err EUnique /\ trees (snd (step w (OFromDict ti p items))) = trees w.
+Proof. exact from_dict_duplicate_refused_anywhere. Qed.
+Print Assumptions C03_from_dict_duplicate_refused_anywhere.
+
+Theorem C03_tree_from_dict_ok_dup_free : forall w items r w', WFw w -> step w (OTreeFromDict items) = (Ok r, w') -> dup_free None items.
+Proof. exact tree_from_dict_ok_dup_free. Qed.
+Print Assumptions C03_tree_from_dict_ok_dup_free.
+
+Theorem C03_tree_from_dict_duplicate_refused_anywhere : forall w items, WFw w -> ~ dup_free None items ->
+  fst (step w (OTreeFromDict items)) = Err EUnique /\ trees (snd (step w (OTreeFromDict items))) = trees w.
+Proof. exact tree_from_dict_duplicate_refused_anywhere. Qed.
+Print Assumptions C03_tree_from_dict_duplicate_refused_anywhere.
+
+(* the audit's witness: a duplicate one level down *)
+Example C03_from_dict_nested_nonvacuous :
+  let dd z := D z z z false [z] in
+  let items := [DI (dd 5%Z) None [DI (dd 7%Z) None []; DI (dd 7%Z) None []]] in
+  let w := run [ONewTree false None; OAdd 0 0 (dd 1%Z) None None BNone] empty_world in
+  ~ dup_free None items /\ fst (step w (OFromDict 0 1 items)) = Err EUnique /\ fst (step w (OTreeFromDict items)) = Err EUnique /\
+  dup_free None [DI (dd 5%Z) None [DI (dd 7%Z) None []; DI (dd 8%Z) None [DI (dd 7%Z) None []]]].
+Proof.
+  cbv zeta. split; [|split; [vm_compute; reflexivity|split; [vm_compute; reflexivity|]]].
+  - intros H. inversion H as [l N K]; subst. specialize (K _ (or_introl eq_refl)). cbn [item_kids] in K.
+    inversion K as [l' N' _]; subst. cbn in N'. inversion N' as [|? ? Hn _]; subst. apply Hn. now left.
+  - repeat (constructor; cbn; [repeat constructor; cbn; intuition discriminate|]; intros it [<-|Hi]; cbn [item_kids]; try contradiction).
+    all: try (destruct Hi as [<-|[]]; cbn [item_kids]).
+    all: repeat (constructor; cbn; [repeat constructor; cbn; intuition discriminate|]; intros it' Hi'; try contradiction; destruct Hi' as [<-|[]]; cbn [item_kids]).
+    all: try (constructor; cbn; [constructor|intros ? []]).
+Qed.
+
+(* ====================================================================================== *)
+(* Audit C03 (medium): no over-refusal.  Only C03_add_accepted stated the converse; D12 was an over-refusal of
+   add(node).  Every uniqueness refusal of add(node) / move_to has one of the documented causes; and the calls the
+   library documents as valid are accepted (C04_progress: [valid_op], which for add(node), remove(keep_children),
+   set_data spells "no collision" with the library's own test, exact by C03_uniqueness_test_exact). *)
+From NT Require Import Progress.
+
+Theorem C03_add_node_unique_cause : forall w ti p sti src e k b deep,
+  WFw w -> fst (step w (OAddNode ti p sti src e k b deep)) = Err EUnique ->
+  exists t st s, get_tree w ti = Some t /\ get_tree w sti = Some st /\ get_node src (forest_of st) = Some s /\
+    ((ti = sti /\ parent_of src (forest_of st) = Some p) \/
+     (exists x, e = Some x /\ x <> rdid s) \/
+     sibling_with (forest_of t) p (rdid s) 0).
+Proof. exact add_node_unique_cause. Qed.
+Print Assumptions C03_add_node_unique_cause.
+
+Theorem C03_move_unique_cause : forall w ti n tti target b,
+  fst (step w (OMove ti n tti target b)) = Err EUnique ->
+  exists t s cur tch c, get_tree w ti = Some t /\ get_node n (forest_of t) = Some s /\ parent_of n (forest_of t) = Some cur /\
+    cur <> target /\ children_of target (forest_of t) = Some tch /\ In c tch /\ rdid c = rdid s.
+Proof. exact move_unique_cause. Qed.
+Print Assumptions C03_move_unique_cause.
+
+Theorem C03_add_node_accepted : forall w ti p sti src e k b deep, valid_add_node w ti p sti src e b deep = true ->
+  fst (step w (OAddNode ti p sti src e k b deep)) = Ok [next w].
+Proof. exact add_node_progress. Qed.
+Print Assumptions C03_add_node_accepted.
+
+(* ====================================================================================== *)
+(* Audit C03 (medium-low): refusing shapes that matched no theorem above -
+   OSetData with new data (id recomputed through the callback) / new data AND an explicit id / with_clones=True,
+   ORemove with keep_children=True and with_clones=True.  (OTreeFromDict and nested OFromDict: section above.) *)
+Theorem C03_set_data_refused_any : forall w ti n d e wcl t s did' x q0 i l y,
+  WFw w -> get_tree w ti = Some t -> get_node n (forest_of t) = Some s -> (d <> None \/ e <> None) ->
+  sd_did' t (sd_new_data s d) e = Some did' -> sd_new_did s did' = Some x ->
+  node_loc n (forest_of t) = Some (q0, i, l) -> In y l -> rid y <> n -> rdid y = x ->
+  (Nat.ltb 1 (length (idx_get (rdid s) (idx t))) = false \/ wcl = Some false) ->
+  fst (step w (OSetData ti n d e wcl)) = Err EUnique.
+Proof. exact set_data_refused_any. Qed.
+Print Assumptions C03_set_data_refused_any.
+
+Theorem C03_set_data_refused_any_group : forall w ti n d e t s did' x m q0 i l y,
+  WFw w -> get_tree w ti = Some t -> get_node n (forest_of t) = Some s -> (d <> None \/ e <> None) ->
+  sd_did' t (sd_new_data s d) e = Some did' -> sd_new_did s did' = Some x ->
+  Nat.ltb 1 (length (idx_get (rdid s) (idx t))) = true ->
+  In m (idx_get (rdid s) (idx t)) -> node_loc m (forest_of t) = Some (q0, i, l) ->
+  In y l -> rdid y = x -> ~ In (rid y) (idx_get (rdid s) (idx t)) ->
+  fst (step w (OSetData ti n d e (Some true))) = Err EUnique.
+Proof. exact set_data_refused_any_group. Qed.
+Print Assumptions C03_set_data_refused_any_group.
+
+Theorem C03_remove_refused_iff : forall w ti n (keep wc : bool) t d, get_tree w ti = Some t -> did_of n (forest_of t) = Some d ->
+  let victims := if wc then filter (fun c => negb (Nat.eqb c n)) (idx_get d (idx t)) ++ [n] else [n] in
+  (fst (step w (ORemove ti n keep wc)) = Err EUnique <->
+   keep = true /\ exists v q0 i l, In v victims /\ node_loc v (forest_of t) = Some (q0, i, l) /\
+                   ~ NoDup (map rdid (flat_map (contract_t victims) l))) /\
+  (fst (step w (ORemove ti n keep wc)) = Err EUnique -> snd (step w (ORemove ti n keep wc)) = w) /\
+  (fst (step w (ORemove ti n keep wc)) = Err EUnique \/ fst (step w (ORemove ti n keep wc)) = Ok []).
+Proof. exact remove_refused_iff. Qed.
+Print Assumptions C03_remove_refused_iff.
+
+Example C03_unmatched_shapes_nonvacuous :
+  let dd z := D z z z false [z] in
+  (* 1 = a(3 = c), 2 = b(4 = c', 5 = x): clones 3,4 of c *)
+  let w := run [ONewTree false None; OAdd 0 0 (dd 1%Z) None None BNone; OAdd 0 0 (dd 2%Z) None None BNone;
+                OAdd 0 1 (dd 3%Z) None None BNone; OAddNode 0 2 0 3 None None BNone None; OAdd 0 2 (dd 5%Z) None None BNone;
+                OAdd 0 0 (dd 3%Z) None None BNone] empty_world in
+  fst (step w (ORemove 0 1 true true)) = Err EUnique /\                              (* c would come up next to the top-level c *)
+  fst (step w (OSetData 0 3 (Some (dd 5%Z)) None (Some true))) = Err EUnique /\      (* the clone below b would sit next to x *)
+  fst (step w (OSetData 0 5 (Some (dd 9%Z)) (Some (DInt 3)) None)) = Err EUnique.    (* new data and an explicit id *)
+Proof. vm_compute. repeat split. Qed.
+
+(* Audit C03 (low): the invariant also over histories that contain Tree.load ([run_x], Mut/MachineLoad.v) *)
+Theorem C03_reachable_load : forall ops t, In t (trees (run_x ops empty_world)) -> sib_unique (forest_of t).
+Proof.
+  intros ops t Ht. assert (X := WFw_run_x ops empty_world WFw_empty). destruct X as [X _ _ _]. rewrite Forall_forall in X.
+  apply SU_sib_unique. apply wf_su. now apply X.
+Qed.
+Print Assumptions C03_reachable_load.
